@@ -36,6 +36,7 @@ Derive(e) ==
     [] e.a = "Hook"   -> Put(e.i, e.j, [s EXCEPT !.hooks = Append(@, e.arg)]) /\ UNCHANGED branched
     [] e.a = "Output" -> Put(e.i, e.j, [s EXCEPT !.dest = l - base]) /\ UNCHANGED branched   \* destination id = step number
     [] e.a = "Update" -> g' = [g EXCEPT ![e.i].fields = Append(@, e.arg)] /\ UNCHANGED branched
+    [] e.a = "UpdateReset" -> g' = [g EXCEPT ![e.i].fields = <<e.arg>>] /\ UNCHANGED branched
     [] e.a = "Drop"   -> g' = [g EXCEPT ![e.i] = NoneG] /\ UNCHANGED branched
     [] OTHER -> UNCHANGED <<g, branched>>
 
